@@ -1,7 +1,7 @@
 (* Request/response interface of the executable model: one S-expression in,
    one out.  Shared by the extracted runner and the in-Coq path. *)
 From InfluxQL Require Import Base.Prelude Base.Sexp Base.Oracles Lex.Token Lex.Reader Lex.Scanner Ast.Ast Ast.SexpAst
-  Val.Duration Parse.ExprTree Parse.Instr Parse.ParseExpr.
+  Val.Duration Parse.ExprTree Parse.Instr Parse.ParseExpr Parse.ParseStmts Ast.Printer Ast.PrinterStmts Parse.Params.
 
 Definition bad_request : sexp := L [A (-1)].
 
@@ -37,6 +37,24 @@ Definition sd_params (s : sexp) : option (list (text * (token * text))) :=
                     | L [n; t; v] => n' <-o sd_text n ;; t' <-o sd_tok t ;; v' <-o sd_text v ;; Some (n', (t', v'))
                     | _ => None end) s.
 
+(* Go values offered to SetParams: (1 bits) float64, (2 i) int64, (3 text) string, (4 b) bool, (5 text) json.Number,
+   (6 ((key value) ...)) map[string]interface{}, (7) anything else *)
+Fixpoint sd_gval (s : sexp) : option gval :=
+  match s with
+  | L [A 1; A b] => Some (GFloat b)
+  | L [A 2; A i] => Some (GInt i)
+  | L [A 3; t] => t' <-o sd_text t ;; Some (GString t')
+  | L [A 4; b] => b' <-o sd_bool b ;; Some (GBool b')
+  | L [A 5; t] => t' <-o sd_text t ;; Some (GJson t')
+  | L [A 6; L es] =>
+      es' <-o sd_all (map (fun e => match e with
+                                    | L [k; v] => k' <-o sd_text k ;; v' <-o sd_gval v ;; Some (k', v')
+                                    | _ => None end) es) ;;
+      Some (GObj es')
+  | L [A 7] => Some GOther
+  | _ => None
+  end.
+
 Definition fuel_of (src : text) : nat := (4 * length src + 16)%nat.
 
 (* result of a parse: the value, plus the pushback maxima the hooks observe *)
@@ -57,16 +75,14 @@ Fixpoint with_table (orc : oracles) (tbl : list sexp) : oracles :=
       let o := with_table orc tbl' in
       match sd_text k, sd_bool v with
       | Some k', Some v' =>
-          mkOracles (o_ulower o) (o_parse_float o) (o_format_float o)
-            (fun s => if text_eqb s k' then v' else o_re_ok o s) (o_load_loc o)
+          set_re_ok o (fun s => if text_eqb s k' then v' else o_re_ok o s)
       | _, _ => o
       end
   | L [A 2; k; v] :: tbl' =>
       let o := with_table orc tbl' in
       match sd_text k, sd_opt sd_text v with
       | Some k', Some v' =>
-          mkOracles (o_ulower o) (o_parse_float o) (o_format_float o) (o_re_ok o)
-            (fun s => if text_eqb s k' then v' else o_load_loc o s)
+          set_load_loc o (fun s => if text_eqb s k' then v' else o_load_loc o s)
       | _, _ => o
       end
   | _ :: tbl' => with_table orc tbl'
@@ -100,6 +116,23 @@ Definition dispatch1 (orc : oracles) (req : sexp) : sexp :=
           | Some t, Some ps => se_parse se_expr (run (o_ulower orc) (parse_expr orc (fuel_of t)) (new_pstate t ps))
           | _, _ => bad_request
           end
+      | 9%nat, [src; params] =>
+          match sd_text src, sd_params params with
+          | Some t, Some ps => se_parse se_stmt (run (o_ulower orc) (parse_statement orc (fuel_of t)) (new_pstate t ps))
+          | _, _ => bad_request
+          end
+      | 10%nat, [src; params] =>
+          match sd_text src, sd_params params with
+          | Some t, Some ps => se_parse (se_list se_stmt) (run (o_ulower orc) (parse_query orc (fuel_of t)) (new_pstate t ps))
+          | _, _ => bad_request
+          end
+      | 11%nat, [st] => match sd_stmt st with Some st' => se_text (print_stmt orc st') | None => bad_request end
+      | 13%nat, [v] =>
+          match sd_gval v with
+          | Some v' => let '(t, l) := bind_value orc v' in L [se_tok t; (match t with BOUNDPARAM => L [] | _ => se_text l end)]
+          | None => bad_request
+          end
+      | 12%nat, [e] => match sd_expr e with Some e' => se_text (print_expr orc e') | None => bad_request end
       | _, _ => bad_request
       end
   | _ => bad_request
